@@ -1,7 +1,7 @@
 """C18 — unverified addresses cannot use the server as an amplifier."""
 import hc_streams
 from props import _hc
-from hc_oracles import amplification_oracle, ep_crash_oracle
+from hc_oracles import pending_budget_oracle, amplification_oracle, ep_crash_oracle
 
 PROP = "C18"
 COQ_FILE = "props/C18.v"
@@ -22,4 +22,4 @@ def streams(seed, tier):
 
 
 def oracle(name, ops, out):
-    return _hc.run_oracles({"*": [ep_crash_oracle, amplification_oracle]}, name, ops, out)
+    return _hc.run_oracles({"*": [ep_crash_oracle, amplification_oracle, pending_budget_oracle]}, name, ops, out)
